@@ -348,7 +348,25 @@ func (t *tracker) sizeLabels(op string) {
 }
 
 func classify(c core.Case, out []string) []string {
-	t := &tracker{s: newRef(), wasDense: map[uint32]bool{}, convCount: map[uint32]int{}, cycles: map[uint32]int{}, lastBulk: map[uint32]string{}, itPos: [nSlots]int{-1, -1, -1, -1}}
+	newTracker := func() *tracker {
+		return &tracker{s: newRef(), wasDense: map[uint32]bool{}, convCount: map[uint32]int{}, cycles: map[uint32]int{}, lastBulk: map[uint32]string{}, itPos: [nSlots]int{-1, -1, -1, -1}}
+	}
+	// several objects per case: one tracker each, `obj k` switches
+	var ts [nObjects]*tracker
+	ts[0] = newTracker()
+	t := ts[0]
+	cur, lastConvObj, switches := 0, -1, 0
+	totalConv := func() int {
+		n := 0
+		for _, x := range ts {
+			if x != nil {
+				for _, c := range x.convCount {
+					n += c
+				}
+			}
+		}
+		return n
+	}
 	prevLine, repeat := "", 0
 	prev := ""
 	forced := ""
@@ -364,6 +382,18 @@ func classify(c core.Case, out []string) []string {
 		if len(tk) == 0 {
 			continue
 		}
+		if k, ok := objArg(tk); ok {
+			if ts[k] == nil {
+				ts[k] = newTracker()
+			}
+			if k != cur {
+				switches++
+			}
+			cur, t = k, ts[k]
+			prev = "obj"
+			continue
+		}
+		convBefore := totalConv()
 		if isMutation(tk[0]) {
 			t.itPos = [nSlots]int{-1, -1, -1, -1}
 			t.muts++
@@ -505,6 +535,25 @@ func classify(c core.Case, out []string) []string {
 				t.labels = append(t.labels, "early stop", lab)
 			}
 		}
+		if switches > 0 && totalConv() > convBefore {
+			if lastConvObj >= 0 && lastConvObj != cur {
+				t.lab("multi: conversions alternate between objects")
+			}
+			lastConvObj = cur
+			for k, x := range ts {
+				if x == nil || k == cur {
+					continue
+				}
+				for h, n := range x.s.cnt {
+					if n == 4096 && !x.s.conv[h] {
+						t.lab("multi: conversion while another object's bucket stands at exactly 4096")
+					}
+				}
+			}
+		}
+		if switches > 0 && (tk[0] == "iter" || tk[0] == "range" || tk[0] == "all") && prev == "obj" {
+			t.lab("multi: enumeration directly after switching the object")
+		}
 		if forced != "" && len(t.s.cnt) > maxB {
 			maxB = len(t.s.cnt)
 			for _, n := range []int{8, 33, 100, 300} {
@@ -524,5 +573,19 @@ func classify(c core.Case, out []string) []string {
 			t.labels = append(t.labels, "panic")
 		}
 	}
-	return t.labels
+	var all []string
+	n := 0
+	for _, x := range ts {
+		if x != nil {
+			all = append(all, x.labels...)
+			n++
+		}
+	}
+	if n > 1 {
+		all = append(all, fmt.Sprintf("multi: %d objects used", n))
+		if switches >= 10 {
+			all = append(all, "multi: ≥10 object switches")
+		}
+	}
+	return all
 }
